@@ -81,22 +81,29 @@ def flatten_core(tree, name, plat):
 FINDING_TEMPLATE = "F|{file}|{line}|{column}|{severity}|{inconclusive:inconclusive}|{id}|{message}"
 
 
-def analyse(progs, plat, work, want_findings=False, stats=None, jobs=4, raw=None):
+def analyse(progs, work, want_findings=False, stats=None, jobs=4, raw=None):
     """Render the programs TU_SIZE per translation unit, run the hooked cppcheck with --dump, convert the value-flow
     section to facts.  Returns (facts per program, findings per program, posmaps)."""
     stats = stats if stats is not None else {}
     tus = []
-    for k in range(0, len(progs), TU_SIZE):
-        chunk = progs[k:k + TU_SIZE]
-        text, posmap = render.render_tu(chunk, plat)
-        path = os.path.join(work, "tu%04d.c" % (k // TU_SIZE))
+    k = 0
+    while k < len(progs):
+        # consecutive programs of one platform, at most TU_SIZE per translation unit
+        pl = progs[k]["plat"]
+        j = k
+        while j < len(progs) and j - k < TU_SIZE and progs[j]["plat"] == pl:
+            j += 1
+        chunk = progs[k:j]
+        text, posmap = render.render_tu(chunk, pl)
+        path = os.path.join(work, "tu%04d.c" % len(tus))
         with open(path, "w") as f:
             f.write(text)
-        tus.append((k, chunk, path, posmap))
+        tus.append((k, chunk, path, posmap, pl))
+        k = j
 
     def run_one(tu):
-        k, chunk, path, posmap = tu
-        args = ["--dump", "-q", T.cppcheck_platform_arg(plat), "--template=" + FINDING_TEMPLATE]
+        k, chunk, path, posmap, pl = tu
+        args = ["--dump", "-q", T.cppcheck_platform_arg(pl), "--template=" + FINDING_TEMPLATE]
         if want_findings:
             args += ["--enable=style,warning"]
         args.append(os.path.basename(path))
@@ -111,7 +118,7 @@ def analyse(progs, plat, work, want_findings=False, stats=None, jobs=4, raw=None
         outputs = list(ex.map(run_one, tus))
     facts = []
     findings = [[] for _ in progs]
-    for (k, chunk, path, posmap), text in zip(tus, outputs):
+    for (k, chunk, path, posmap, _pl), text in zip(tus, outputs):
         st = {}
         facts += dump2facts.extract(path + ".dump", chunk, posmap, st, raw=raw, base=k)
         for a, b in st.items():
@@ -294,7 +301,7 @@ def describe(prog, plat, node):
 
 
 # ------------------------------------------------------------------------------------------------ judging pipeline
-def conformance(progs, plat, rows, rng, nsample):
+def conformance(progs, rows, rng, nsample):
     """Second-witness conformance on a sample of executions: native return value / sanitizer verdict against the
     model's outcome, judged by TLC (spec/MiniCConf.tla). Returns (n judged, disagreements)."""
     cand = [x for x in rows if x["s"] in ("done", "ub")]
@@ -305,10 +312,12 @@ def conformance(progs, plat, rows, rng, nsample):
     by_prog = {}
     for x in cand:
         by_prog.setdefault(x["p"], []).append(x)
-    pidxs = sorted(by_prog)
     obs = []
-    for k in range(0, len(pidxs), 40):
-        part = pidxs[k:k + 40]
+    parts = []
+    for pl in sorted(set(progs[i]["plat"] for i in by_prog)):
+        pidxs = sorted(i for i in by_prog if progs[i]["plat"] == pl)
+        parts += [(pl, pidxs[k:k + 40]) for k in range(0, len(pidxs), 40)]
+    for plat, part in parts:
         sub = [progs[i] for i in part]
         runs = []
         meta = []
@@ -368,7 +377,7 @@ def violation_key(prog, plat, node, fact, cls):
 
 
 # ------------------------------------------------------------------------------------------------ generic check
-def run_check(pid, tier, seed, progs, plat, mode, sizes, ncore=0, core_total=0, assumptions=(), extra=None):
+def run_check(pid, tier, seed, progs, mode, sizes, ncore=0, core_total=0, assumptions=(), extra=None):
     """mode: 'valueflow' (C01: facts from the dump), 'verdict' (C03: facts from findings), 'flag' (C04: error findings).
     sizes = (cap, fuel, conformance sample).  Returns (exit code, coverage dict)."""
     import time
@@ -381,13 +390,13 @@ def run_check(pid, tier, seed, progs, plat, mode, sizes, ncore=0, core_total=0, 
     work = vlib.mktmp(pid.lower())
     stats = {}
     raw = {} if mode == "flag" else None
-    vf_facts, findings = analyse(progs, plat, work, want_findings=(mode != "valueflow"), stats=stats, raw=raw)
+    vf_facts, findings = analyse(progs, work, want_findings=(mode != "valueflow"), stats=stats, raw=raw)
     if mode == "valueflow":
         facts = vf_facts
     elif mode == "verdict":
         facts = findings2facts.verdicts(progs, findings, stats)
     else:
-        facts = findings2facts.flags(progs, findings, stats, raw, plat)
+        facts = findings2facts.flags(progs, findings, stats, raw)
     nfacts = attach(progs, facts)
     meta = {}
     for pi, fs in enumerate(facts):
@@ -416,6 +425,7 @@ def run_check(pid, tier, seed, progs, plat, mode, sizes, ncore=0, core_total=0, 
     violations, disagreements = [], []
     for (pi, node, fi), xs in sorted(groups.items()):
         prog = progs[pi]
+        plat = prog["plat"]
         x = xs[0]
         text, pos = describe(prog, plat, node)
         if mode == "flag":
@@ -446,7 +456,7 @@ def run_check(pid, tier, seed, progs, plat, mode, sizes, ncore=0, core_total=0, 
                 prog["name"], pos[0] if pos else "?", pos[1] if pos else "?", val, ftxt, src, x["inp"], len(xs),
                 (" class " + cls) if cls else "")
         violations.append({"key": key, "replay": path, "what": what})
-    njudged, confbad = conformance(progs, plat, ex.rows, rng, nconf)
+    njudged, confbad = conformance(progs, ex.rows, rng, nconf)
     rc, new, known = vlib.verdict(pid, violations)
     for d in disagreements[:10]:
         print("MODEL-DISAGREEMENT (not reported against cppcheck): %s" % json.dumps(d)[:700])
@@ -461,6 +471,10 @@ def run_check(pid, tier, seed, progs, plat, mode, sizes, ncore=0, core_total=0, 
     for x in done:
         for n in x["seen"]:
             exercised.add((x["p"], n))
+    if mode == "flag":
+        # a flag is exercised when its program has a completed UB-free execution (the invariant was evaluated there)
+        pd = set(x["p"] for x in done)
+        exercised = set((p, n + 1) for p in pd for n, fs in enumerate(progs[p]["nf"]) if fs)
     nexercised = sum(len(progs[p]["nf"][n - 1]) for p, n in exercised)
     kinds = {}
     for p, n in exercised:
@@ -473,15 +487,18 @@ def run_check(pid, tier, seed, progs, plat, mode, sizes, ncore=0, core_total=0, 
             si = i
             break
     sample = progs[si]
-    stext, _ = describe(sample, plat, 1)
+    stext, _ = describe(sample, sample["plat"], 1)
     srow = next((x for x in done if x["p"] == si), None)
     cov = {
         "states": ex.states, "transitions": ex.generated,
         "evaluations": len(ex.rows), "distinct_nontrivial": len(exercised),
-        "rule": "one evaluation = one execution (program, input vector) explored by TLC; distinct non-trivial = distinct (program, AST node) "
-                "pairs that carry at least one fact and were evaluated by at least one completed UB-free execution",
+        "rule": ("one evaluation = one execution (program, input vector) explored by TLC; distinct non-trivial = distinct (program, AST node) "
+                 "pairs that carry at least one fact and were evaluated by at least one completed UB-free execution") if mode != "flag" else
+                ("one evaluation = one execution (program, input vector) explored by TLC; distinct non-trivial = distinct flagged (program, AST "
+                 "node) pairs in programs that have at least one completed UB-free execution (NeverReached evaluated on a completed state)"),
         "exhaustive": False,
-        "programs": len(progs), "programs_executed": len(active), "core_programs": ncore, "core_total": core_total,
+        "programs": len(progs), "programs_by_platform": {pl: sum(1 for p in progs if p["plat"] == pl) for pl in sorted(set(p["plat"] for p in progs))},
+        "programs_executed": len(active), "core_programs": ncore, "core_total": core_total,
         "core_exhaustive": bool(ncore) and ncore == core_total,
         "programs_with_completed_execution": len(set(x["p"] for x in done)),
         "facts_recorded": nfacts, "facts_exercised": nexercised, "facts_exercised_by_kind": kinds,
